@@ -247,6 +247,17 @@ Theorem bounded_pending_read_refuted : forall F,
 Proof. exact bounded_read_refuted. Qed.
 Print Assumptions bounded_pending_read_refuted.
 
+(* ---- in-memory store: an occurrence recorded by another thread while a loop iteration clears is not lost ---- *)
+Theorem concurrent_record_survives_clear_mem : forall p cl v,
+  In v (record_after_clear (f_mem_pending_in_place gen_facts) p cl v)
+  /\ forall w, In w p -> ~ In w cl -> In w (record_after_clear (f_mem_pending_in_place gen_facts) p cl v).
+Proof. exact (fun p cl v => conj (record_after_clear_in_place p cl v) (record_after_clear_keeps true p cl v)). Qed.
+Print Assumptions concurrent_record_survives_clear_mem.
+
+Theorem concurrent_record_lost_when_rebound_refuted : forall p cl v, ~ In v p -> ~ In v (record_after_clear false p cl v).
+Proof. exact record_after_clear_rebound_refuted. Qed.
+Print Assumptions concurrent_record_lost_when_rebound_refuted.
+
 (* ---- an occurrence report reaches the conditions of its own kind only ---- *)
 Theorem report_reaches_its_own_kind_only : forall c o,
   (reaches (f_mem_source_filter_exact gen_facts) c o = true -> kind_of c = o_kind o)
